@@ -173,6 +173,36 @@ def worker(case):
                 probs.append(("equal-netlists-rejected:write-then-read:%s:%s" % (tag, r), "netlist vs its own round trip"))
         except Exception as ex:
             probs.append(("round-trip-raised:%s:%s" % (tag, type(ex).__name__), repr(ex)[:200]))
+        # a faithful copy whose wires list their pins in another order (pins detached and attached again)
+        d = a.clone()
+        for l in d.libraries:
+            for df in l.definitions:
+                for cb in df.cables:
+                    for wr in cb.wires:
+                        wr.pins = list(reversed(list(wr.pins)))
+        r = compare(a, d)
+        nq += 1
+        if r:
+            probs.append(("equal-netlists-rejected:pins-reattached:%s:%s" % (tag, r), "netlist vs a clone whose wires list the same pins in reverse order"))
+        # ... and after edits that were *refused* on one side (a rename to a sibling's name, in every scope)
+        e = a.clone()
+        refused = 0
+        for side in (a, e):
+            for l in side.libraries:
+                groups = [list(l.definitions)] + [list(getattr(df, attr)) for df in l.definitions for attr in ("ports", "cables", "children")]
+                for grp in groups:
+                    named = [x for x in grp if x.name is not None]
+                    if len(named) >= 2:
+                        try:
+                            named[0].name = named[1].name
+                        except ValueError:
+                            refused += 1
+            if side is a:
+                for who, x, y in (("original", a, e), ("copy", e, a)):
+                    r = compare(x, y)
+                    nq += 1
+                    if r:
+                        probs.append(("equal-netlists-rejected:after-refused-renames:%s:%s" % (tag, r), "refused renames on the %s side (%d refused)" % ("looked-up" if who == "copy" else "walked", refused)))
         return {"key": core.digest(case), "nontrivial": True, "outcome": "copies", "problems": probs, "transitions": nq}
     idx = case[2]
     b, _ = load(src)
